@@ -35,12 +35,12 @@ func inE(e *E, arr int) *E      { return &E{K: "in", I: arr, Kids: []*E{e}} }
 func incr(pre bool, op string, e *E) *E {
 	return &E{K: "incr", Op: op, Pre: pre, Kids: []*E{e}}
 }
-func fld(e *E) *E            { return &E{K: "fld", Kids: []*E{e}} }
-func idx(arr int, i *E) *E   { return &E{K: "idx", I: arr, Kids: []*E{i}} }
-func getl(c, t, f *E) *E     { return &E{K: "getline", Kids: []*E{c, t, f}} }
-func (e *E) isNil() bool     { return e.K == "nil" }
-func (e *E) isAtom() bool    { return e.K == "num" || e.K == "var" || e.K == "str" || e.K == "nil" }
-func (e *E) isLValue() bool  { return e.K == "var" || e.K == "idx" || e.K == "fld" }
+func fld(e *E) *E           { return &E{K: "fld", Kids: []*E{e}} }
+func idx(arr int, i *E) *E  { return &E{K: "idx", I: arr, Kids: []*E{i}} }
+func getl(c, t, f *E) *E    { return &E{K: "getline", Kids: []*E{c, t, f}} }
+func (e *E) isNil() bool    { return e.K == "nil" }
+func (e *E) isAtom() bool   { return e.K == "num" || e.K == "var" || e.K == "str" || e.K == "nil" }
+func (e *E) isLValue() bool { return e.K == "var" || e.K == "idx" || e.K == "fld" }
 
 // S-expression, identical to GoawkModel.Drv.C04.showTree
 func (e *E) String() string {
